@@ -475,3 +475,49 @@ package loader
 //@   modifies a.stateFunc
 //@   ensures panics <==> lex.lexEventType != lexeme.ArrayItemEnd
 //@   ensures normal ==> boundis(a.stateFunc, orValueLoader, "itemBeginOrArrayEnd")
+
+// ---- C13: inline and multi-line annotations drive the same rule loader ----
+//@ func newRuleLoader(node, nodesPerCurrentLineCount, rootSchema, rules)
+//@   props C13 C08
+//@   nopanic
+//@   ensures fresh(result) && result.node == node && result.nodesPerCurrentLineCount == nodesPerCurrentLineCount && result.rootSchema == rootSchema && result.rules == rules
+//@   ensures boundis(result.stateFunc, ruleLoader, "begin") && tag(result.embeddedValueLoader) == 0
+//@ func addTypeShortcut(node, val)
+//@   props C03
+//@   requires isNode(node)
+//@   maypanic
+//@   modifies *
+//@ func addShortcutConstraint(node, rootSchema, lex)
+//@   props C03 C13
+//@   requires lexWF(lex)
+//@   assumes isNode(node)
+//@   maypanic
+//@   modifies *
+//@   ensures normal ==> ((result != nil) == (lex.lexEventType != lexeme.TypesShortcutEnd))
+
+// which lexemes switch the loader between the node loader and the rule loader: an
+// annotation of either form opens a rule loader for the last added node (with the
+// number of nodes on the current line), its end returns to the node loader
+//@ func (*loader).handleLex(lex)
+//@   props C13 C08
+//@   requires l != nil && lexWF(lex) && (l.mode == readDefault || l.mode == readInlineComment || l.mode == readMultiLineComment)
+//@   assumes l.lastAddedNode != nil ==> isNode(l.lastAddedNode)
+//@   assumes lex.lexEventType == lexeme.TypesShortcutEnd ==> l.lastAddedNode != nil
+//@   maypanic
+//@   modifies *
+//@   ensures old(l.mode) != readDefault && (lex.lexEventType == lexeme.TypesShortcutBegin || lex.lexEventType == lexeme.KeyShortcutBegin || lex.lexEventType == lexeme.TypesShortcutEnd)
+//@           ==> normal && !result0 && result1 == nil && l.mode == old(l.mode) && l.rule == old(l.rule)
+//@   ensures old(l.mode) == readDefault && (lex.lexEventType == lexeme.TypesShortcutBegin || lex.lexEventType == lexeme.KeyShortcutBegin)
+//@           ==> normal && result0 && result1 == nil && l.mode == old(l.mode) && l.rule == old(l.rule)
+//@   ensures old(l.mode) == readDefault && lex.lexEventType == lexeme.TypesShortcutEnd && normal ==> result0 && result1 == nil
+//@   ensures lex.lexEventType == lexeme.MultiLineAnnotationBegin || (lex.lexEventType == lexeme.InlineAnnotationBegin && old(l.mode) == readDefault)
+//@           ==> normal && result0 && result1 == nil && l.mode == (lex.lexEventType == lexeme.MultiLineAnnotationBegin ? readMultiLineComment : readInlineComment)
+//@               && fresh(l.rule) && l.rule.node == old(l.lastAddedNode) && l.rule.nodesPerCurrentLineCount == old(l.nodesPerCurrentLineCount)
+//@               && l.rule.rootSchema == old(l.rootSchema) && l.rule.rules == old(l.rules) && boundis(l.rule.stateFunc, ruleLoader, "begin")
+//@   ensures lex.lexEventType == lexeme.MultiLineAnnotationEnd || (lex.lexEventType == lexeme.InlineAnnotationEnd && old(l.mode) == readInlineComment)
+//@           ==> normal && result0 && result1 == nil && l.mode == readDefault && l.rule == old(l.rule)
+//@   ensures (lex.lexEventType == lexeme.InlineAnnotationBegin && old(l.mode) != readDefault) || (lex.lexEventType == lexeme.InlineAnnotationEnd && old(l.mode) != readInlineComment)
+//@           ==> normal && !result0 && result1 == nil && l.mode == old(l.mode) && l.rule == old(l.rule)
+//@   ensures !(lex.lexEventType == lexeme.TypesShortcutBegin || lex.lexEventType == lexeme.KeyShortcutBegin || lex.lexEventType == lexeme.TypesShortcutEnd || lex.lexEventType == lexeme.MultiLineAnnotationBegin
+//@             || lex.lexEventType == lexeme.MultiLineAnnotationEnd || lex.lexEventType == lexeme.InlineAnnotationBegin || lex.lexEventType == lexeme.InlineAnnotationEnd)
+//@           ==> normal && !result0 && result1 == nil && l.mode == old(l.mode) && l.rule == old(l.rule)
